@@ -59,10 +59,21 @@ def main():
         rnd = random.Random(os.getpid())
         names = ('/cpppo/automata.py', '/cpppo/server/enip/device.py', '/cpppo/server/enip/logix.py', '/cpppo/server/enip/ucmm.py', '/cpppo/server/enip/main.py')
 
+        shared = ('Attribute.', 'Logix.request', 'Logix.reply_elements')
+
         def on_line(code, line):
             if not code.co_filename.endswith(names):
                 return mon.DISABLE
-            if rnd.random() < yield_p:
+            # Aim at the shared mutable state: inside the methods of the tag store itself (class Attribute) and of the Logix request
+            # handler a quarter of the lines sleep for real (0.5 ms), so that the window between two statements of one request is long
+            # enough for other sessions' requests to reach the same tag whatever the machine load; elsewhere sleep(0) at rate yield_p.
+            r = rnd.random()
+            if code.co_qualname.startswith(shared):
+                if r < 0.25:
+                    stats['yields'] += 1
+                    stats['long_yields'] = stats.get('long_yields', 0) + 1
+                    time.sleep(0.0005)
+            elif r < yield_p:
                 stats['yields'] += 1
                 time.sleep(0)
         mon.register_callback(TOOL, mon.events.LINE, on_line)
